@@ -10,7 +10,9 @@ import (
 	"encoding/json"
 	"fmt"
 	"io"
+	"math/big"
 	"sort"
+	"strconv"
 	"strings"
 	"unicode/utf8"
 )
@@ -33,8 +35,16 @@ type expectation struct {
 
 type decimal struct {
 	neg    bool
-	digits string // significant digits without leading/trailing zeros; "" = zero
-	exp    int    // value = 0.digits * 10^exp
+	digits string   // significant digits without leading/trailing zeros; "" = zero
+	exp    *big.Int // value = 0.digits * 10^exp (exact: an exponent may have thousands of digits)
+}
+
+// equal: the same exact decimal value (-0 = 0).
+func (d decimal) equal(o decimal) bool {
+	if d.digits == "" || o.digits == "" {
+		return d.digits == o.digits
+	}
+	return d.neg == o.neg && d.digits == o.digits && d.exp.Cmp(o.exp) == 0
 }
 
 // parseDecimal accepts the liberal "numeric-looking" shape
@@ -64,7 +74,7 @@ func parseDecimal(s string) (decimal, bool) {
 	if len(intPart)+len(frac) == 0 {
 		return d, false
 	}
-	e := 0
+	e := new(big.Int)
 	if i < len(s) && (s[i] == 'e' || s[i] == 'E') {
 		i++
 		eneg := false
@@ -74,16 +84,16 @@ func parseDecimal(s string) (decimal, bool) {
 		}
 		es := i
 		for i < len(s) && s[i] >= '0' && s[i] <= '9' {
-			if e < 1_000_000 {
-				e = e*10 + int(s[i]-'0')
-			}
 			i++
 		}
 		if es == i {
 			return d, false
 		}
+		if _, ok := e.SetString(s[es:i], 10); !ok {
+			return d, false
+		}
 		if eneg {
-			e = -e
+			e.Neg(e)
 		}
 	}
 	if i != len(s) {
@@ -99,7 +109,7 @@ func parseDecimal(s string) (decimal, bool) {
 		return decimal{}, true // zero (sign ignored: -0 = 0)
 	}
 	d.digits = sig
-	d.exp = len(intPart) - lead + e
+	d.exp = e.Add(e, big.NewInt(int64(len(intPart)-lead)))
 	return d, true
 }
 
@@ -176,6 +186,25 @@ func checkText(text string, exp *expectation) []finding {
 		return out
 	}
 	seen := map[string]bool{}
+	seenName := map[string]bool{}
+	// a group name that is not valid UTF-8 cannot be written in JSON; the
+	// member name may decode to it the same way a value may (sameText)
+	nameOf := func(key string) (string, bool) {
+		if _, ok := exp.names[key]; ok {
+			return key, true
+		}
+		var cands []string
+		for n := range exp.names {
+			if sameText(key, n) {
+				cands = append(cands, n)
+			}
+		}
+		if len(cands) == 0 {
+			return "", false
+		}
+		sort.Strings(cands)
+		return cands[0], true
+	}
 	for dec.More() {
 		kt, err := dec.Token()
 		key, ok := kt.(string)
@@ -198,15 +227,14 @@ func checkText(text string, exp *expectation) []finding {
 		known := false
 		kind := ""
 		if exp.named {
-			if c, ok := exp.names[key]; ok {
-				capture, known, kind = c, true, "named"
+			if n, ok := nameOf(key); ok {
+				capture, known, kind = exp.names[n], true, "named"
+				seenName[n] = true
 			}
 		}
 		if !known && exp.numbered {
-			for i := range exp.groups {
-				if key == fmt.Sprint(i) {
-					capture, known, kind = exp.groups[i], true, "numbered"
-				}
+			if i, err := strconv.Atoi(key); err == nil && i >= 0 && i < len(exp.groups) && strconv.Itoa(i) == key {
+				capture, known, kind = exp.groups[i], true, "numbered"
 			}
 		}
 		if !known {
@@ -229,7 +257,7 @@ func checkText(text string, exp *expectation) []finding {
 			vd, vok := parseDecimal(string(v))
 			if !cok {
 				add("member/"+kind+"/number-for-non-numeric-capture", "member %q is the number %s, the captured text is %q", key, v, capture)
-			} else if !vok || cd != vd {
+			} else if !vok || !cd.equal(vd) {
 				add("member/"+kind+"/number-of-different-value", "member %q is the number %s, the captured text is %q", key, v, capture)
 			}
 		case bool:
@@ -264,7 +292,7 @@ func checkText(text string, exp *expectation) []finding {
 		}
 		sort.Strings(names)
 		for _, n := range names {
-			if exp.names[n] != "" && !seen[n] {
+			if exp.names[n] != "" && !seenName[n] {
 				add("member/named/missing", "no member for the named group %q (captured %q)", n, exp.names[n])
 			}
 		}
